@@ -25,7 +25,7 @@ ALLOWED = {
     ("Reflink", "dst"): {"Entry": "other"},
     ("HardLink", "src"): {"Content(Entry)": "cache"},
     ("HardLink", "dst"): {"Entry": "other"},
-    ("Symlink", "src"): {"Entry": "other"},
+    ("Symlink", "src"): {"Abs(Entry)": "other"},      # the link target, made absolute (a relative one would dangle)
     ("Symlink", "dst"): {"Content(Entry)": "cache"},
 }
 
